@@ -478,7 +478,29 @@ func checkFilesOrdering(c *Ctx) {
 							}
 							return false
 						}
-						if isName(be.X) && isName(be.Y) {
+						resolve := func(e ast.Expr) ast.Expr {
+							id, ok := e.(*ast.Ident)
+							if !ok {
+								return e
+							}
+							o := info.ObjectOf(id)
+							var def ast.Expr
+							ast.Inspect(fl.Body, func(q ast.Node) bool {
+								if as, ok := q.(*ast.AssignStmt); ok && len(as.Lhs) == len(as.Rhs) {
+									for i, l := range as.Lhs {
+										if li, ok := l.(*ast.Ident); ok && info.ObjectOf(li) == o {
+											def = as.Rhs[i]
+										}
+									}
+								}
+								return true
+							})
+							if def != nil {
+								return def
+							}
+							return e
+						}
+						if isName(resolve(be.X)) && isName(resolve(be.Y)) {
 							byName = true
 						}
 						return true
